@@ -277,5 +277,33 @@ MUTANTS += [
 ]
 
 
+# ---------------------------------------------------------------------- rules of seed rounds j / k: breaking and accepted spellings
+MUTANTS += [
+    # P-NODE existing: the metadata argument confined to the creation branch
+    B("c02-add-node-metadata-only-when-new", "C02", D, "            self._node_metadata[node] = {}\n        if self._node_metadata[node] == {}:\n            self._node_metadata[node] = metadata", "            self._node_metadata[node] = metadata", "P-NODE"),
+    # P-EMETA: re-insertion of an existing hyperedge keeps the old metadata
+    B("c01-add-edge-existing-keeps-metadata", "C01", H, "\n            if metadata is not None:\n                self._edge_metadata[self._edge_list[edge]] = metadata", "", "P-EMETA"),
+    # P-REINSERT metadata-carried: presence judged on the node set alone
+    B("c03-reinsert-metadata-withheld-by-node-set", "C03", T, "                        weight=weight,\n                        metadata=metadata,\n                    )", "                        weight=weight,\n                        metadata=None if len(self.get_times_for_edge(updated_edge)) > 0 else metadata,\n                    )", "P-REINSERT"),
+    # E-SHARED loop-shared
+    B("c12-strong-reciprocity-shared-default", "C12", REC, "            for node in edge[0]:\n                if node not in node_reach:\n                    node_reach[node] = set(edge[1])\n                else:\n                    node_reach[node] = node_reach[node].union(set(edge[1]))", "            targets = set(edge[1])\n            for node in edge[0]:\n                node_reach.setdefault(node, targets).update(targets)", "E-SHARED"),
+    OKV("c12-benign-strong-reciprocity-fresh-default", "C12", REC, "            for node in edge[0]:\n                if node not in node_reach:\n                    node_reach[node] = set(edge[1])\n                else:\n                    node_reach[node] = node_reach[node].union(set(edge[1]))", "            targets = set(edge[1])\n            for node in edge[0]:\n                node_reach.setdefault(node, set()).update(targets)"),
+    # Y-SWAPPAIR
+    B("c16-mcmc-write-back-per-slot", "C16", SAMP, "            hye_list[idx1] = set(new_hye1)\n            hye_list[idx2] = set(new_hye2)", "            if set(new_hye1) not in hye_list:\n                hye_list[idx1] = set(new_hye1)\n            if set(new_hye2) not in hye_list:\n                hye_list[idx2] = set(new_hye2)", "Y-SWAPPAIR"),
+    OKV("c16-benign-mcmc-write-back-together", "C16", SAMP, "            hye_list[idx1] = set(new_hye1)\n            hye_list[idx2] = set(new_hye2)", "            replacement = (set(new_hye1), set(new_hye2))\n            hye_list[idx1] = replacement[0]\n            hye_list[idx2] = replacement[1]"),
+    # Q-ISO on the module-level functions
+    B("c08-cc-is-isolated-by-incidence", "C08", CC, "    return len(list(hg.get_neighbors(node, order=order, size=size))) == 0", "    return len(hg.get_incident_edges(node, order=order, size=size)) == 0", "Q-ISO"),
+    # M-COMPLEMENT size-known
+    B("c13-complement-size-none", "C13", CM, "    if size is None:\n        size = order + 1\n", "", "M-COMPLEMENT"),
+    # N-LAGRANGE
+    B("c17-lagrange-extra-regulariser", "C17", MT, "self.u[i, ks] = u_tmp / (lambda_i + u_tmp_den)", "self.u[i, ks] = u_tmp / (self.gammaU + lambda_i + u_tmp_den)", "N-LAGRANGE"),
+    OKV("c17-benign-lagrange-commuted", "C17", MT, "self.u[i, ks] = u_tmp / (lambda_i + u_tmp_den)", "self.u[i, ks] = u_tmp / (u_tmp_den + lambda_i)"),
+    # I-DENSESIZES
+    B("c17-size-lists-over-observed-sizes", "C17", MT, "for d in np.arange(2, np.max(HyeId2D + 1))", "for d in np.unique(HyeId2D)", "I-DENSESIZES"),
+    # S-RESERVED: reserved key written only when the metadata lacks it
+    B("c06-reserved-weight-unless-present", "C06", SAVE, "                if weighted:\n                    metadata[\"weight\"] = hypergraph.get_weight(edge)\n", "                if weighted and \"weight\" not in metadata:\n                    metadata[\"weight\"] = hypergraph.get_weight(edge)\n", "S-RESERVED"),
+]
+
+
 def for_property(prop: str) -> List[Mutant]:
     return [m for m in MUTANTS if m.prop == prop]
